@@ -56,6 +56,9 @@ def monitors(CL, LL, cfg, events, drv, log):
     m = LL.mon_start(events, steps)
     if m:
         res.append(("C02_progress (an accepted start() sends its first request)", m))
+    m = LL.mon_never_idle(events, steps)
+    if m:
+        res.append(("C02_progress (an alive consumer whose processor is not running has a request or a refetch timer outstanding)", m))
     pw = LL.ProcWindow()
     for i, (ev, outs) in enumerate(zip(events, steps)):
         pw.event(ev, True)
@@ -165,6 +168,33 @@ def corpus(CL, LL, rnd):
     return out
 
 
+def probe_parked_garbled(CL, LL):
+    """F-C02-1 probe.  Buffer 64, log of 8 plain messages (two per reply); start(0); the processor returns a pending
+    Deferred for [0, 1]; the refetch timer fires: fetch(2); the reply [2, 3] with message 3's CRC broken arrives while
+    the processor is busy (parked); the Deferred fires; the parked reply is re-handled from _msg_block_d's callback
+    chain: [2] is delivered, ChecksumError escapes into that Deferred.  observed = afterwards the consumer is alive with
+    no request outstanding and no refetch timer (un-parked, the same reply goes through _handle_fetch_error and is
+    re-fetched).  -> (observed, cfg, events, log)"""
+    cfg = CL.Cfg(group=0, acn=0, buf=64)
+    log = LL.PartitionLog(random.Random(3), n=0, first=0)
+    for o in range(8):
+        log.units.append(LL.Unit("plain", 0, [(o, None, b"m%d" % o)]))
+    log.next = 8
+
+    def on_event(env, drv, ev):
+        if ev[0] == CL.EV_FETCH_OK:
+            env.corrupt = 1.0
+    first = [(CL.EV_START, 0), (CL.EV_PLAN, 0, 2), (CL.EV_PLAN, 0, 0), (CL.EV_PLAN, 0, 0), "reply", (CL.EV_FIRE_RETRY,), "reply",
+             (CL.EV_PROC_FIRE, 1)]
+    events, drv, env = LL.honest_run(random.Random(1), cfg, log, LL.OffsetStore(), 0, fault=0.0, first=first, on_event=on_event)
+    steps, _ = CL.split_steps(drv.trace)
+    idle = LL.mon_never_idle(events, steps)
+    c = drv.consumer
+    observed = bool(env.corrupted == 1 and idle and c._request_d is None and c._retry_call is None
+                    and c._start_d is not None and not c._start_d.called)
+    return observed, cfg, events, log
+
+
 def run(ck):
     vlib.import_repo()
     CL, LL = libs()
@@ -176,6 +206,7 @@ def run(ck):
     scale = 12 if thorough else 1
 
     cases, impl, meta = [], [], []
+    stall_known = [False]
 
     def add(label, cfg, events, drv, log, model=True):
         if model:        # histories with replies garbled in transit are outside the Gallina model (C12): monitors only
@@ -192,6 +223,9 @@ def run(ck):
                           "cfg": cfg.line(), "events": jsonable(events), "replay_op": "events"})
         for (thm, what) in monitors(CL, LL, cfg, events, drv, log):
             entries = log.entries if log is not None else None
+            if label == "garbled" and thm.startswith("C02_progress (an alive") and stall_known[0]:
+                ck.hist("garbled_reply_parked_then_stalled (F-C02-1)")      # reported once, through the directed probe
+                continue
 
             def failing(d, evs, thm=thm):
                 return any(t == thm for (t, _) in monitors(CL, LL, cfg, evs, d, log))
@@ -204,6 +238,17 @@ def run(ck):
             ck.violation({"kind": "message-set decoding: offsets yielded by the codec differ from what the broker served",
                           "step": b[0], "bytes": b[1], "codec_offsets": b[2], "codec_toosmall": b[3], "served_offsets": b[4],
                           "served_partial_first": b[5], "replay_op": "bytes"})
+
+    # --- 0. finding probe F-C02-1: a garbled reply parked behind a busy processor stalls the consumer for ever
+    obs, cfg_p, ev_p, log_p = probe_parked_garbled(CL, LL)
+    stall_known[0] = obs
+    ck.finding("F-C02-1", obs,
+               "a fetch reply parked behind a busy processor whose decoding raises mid-way (ChecksumError, UnsupportedCodecError ...): the "
+               "exception escapes into _msg_block_d's callback chain instead of _handle_fetch_error; no refetch is scheduled, the start "
+               "Deferred does not fail, the consumer is idle for ever (the same reply un-parked is re-fetched)",
+               {"kind": "finding probe: C02_progress (never idle) after a parked garbled reply", "cfg": cfg_p.line(), "events": jsonable(ev_p),
+                "log": [[o, list(k) if k is not None else None, list(v) if v is not None else None] for (o, k, v) in log_p.entries],
+                "reset": cfg_p.reset, "replay_op": "events"})
 
     # --- 1. corpus
     for (name, cfg, log, store, first, steps) in corpus(CL, LL, rnd):
